@@ -184,10 +184,6 @@ func (s *c36Space) index(lin int64, buf []int) []int {
 	return buf
 }
 
-func c36CfgOf(sysUIDs, sysDev, wl int) c36Cfg {
-	return c36Cfg{SysUIDs: sysUIDs == 1, SysDevice: sysDev == 1, Whitelist: wl == 1}
-}
-
 func c36SingleEval(build func(ix []int) c36Case) func(ix []int) (*c36Viol, string, bool, func() any) {
 	return c36SingleEvalCache(true, build)
 }
@@ -214,44 +210,82 @@ func c36SingleEvalCache(withCache bool, build func(ix []int) c36Case) func(ix []
 	}
 }
 
+// who sends (system-uid configuration x sender uid) and from which session (system-device
+// configuration x device id). Thorough: the full 2x2 and 2x3 products. Quick: the three
+// combinations that differ in meaning (an unconfigured system uid / device is an ordinary one).
+type c36Who struct {
+	sysUIDs bool
+	sender  string
+}
+
+type c36Session struct {
+	sysDev bool
+	device string
+}
+
+func c36WhoMenu(thorough bool) []c36Who {
+	if thorough {
+		return []c36Who{{false, "u1"}, {false, "sys"}, {true, "u1"}, {true, "sys"}}
+	}
+	return []c36Who{{false, "u1"}, {true, "u1"}, {true, "sys"}}
+}
+
+func c36SessionMenu(thorough bool) []c36Session {
+	if thorough {
+		return []c36Session{{false, ""}, {false, c36SysDevice}, {false, "dev-x"}, {true, ""}, {true, c36SysDevice}, {true, "dev-x"}}
+	}
+	return []c36Session{{false, c36SysDevice}, {true, "dev-x"}, {true, c36SysDevice}}
+}
+
 func c36Spaces(thorough bool) []*c36Space {
 	var out []*c36Space
+	whos, sessions := c36WhoMenu(thorough), c36SessionMenu(thorough)
+	cfg := func(w c36Who, s c36Session, wl bool) c36Cfg {
+		return c36Cfg{SysUIDs: w.sysUIDs, SysDevice: s.sysDev, Whitelist: wl}
+	}
+	// quick fixes irrelevant_flags = set (the harder half) for the big products; thorough runs both
+	noises := []bool{true}
+	if thorough {
+		noises = []bool{false, true}
+	}
 	// ---- group: full product of every fact the two paths read
 	out = append(out, &c36Space{
 		name:  "group",
-		names: []string{"system_uids_configured", "system_device_configured", "sender", "device", "cmd_suffix", "irrelevant_flags", "sender_row", "channel_row", "denylisted", "subscriber", "allowlist_nonempty", "allowlisted"},
-		dims:  []int{2, 2, 2, 3, 2, 2, 4, 6, 3, 3, 3, 3},
+		names: []string{"sender(system-uid config)", "session(system-device config)", "cmd_suffix", "irrelevant_flags", "sender_row", "channel_row", "denylisted", "subscriber", "allowlist_nonempty", "allowlisted"},
+		dims:  []int{len(whos), len(sessions), 2, len(noises), 4, 6, 3, 3, 3, 3},
 		eval: c36SingleEval(func(ix []int) c36Case {
-			return c36GroupCase(c36GroupFacts{Cfg: c36CfgOf(ix[0], ix[1], 0), Sender: c36Senders[ix[2]], Device: c36Devices[ix[3]], Suffix: ix[4] == 1, Noise: ix[5] == 1,
-				SenderRow: ix[6], GroupRow: ix[7], Denied: ix[8], Sub: ix[9], HasAllow: ix[10], Entry: ix[11], Group: "g1"})
+			w, s := whos[ix[0]], sessions[ix[1]]
+			return c36GroupCase(c36GroupFacts{Cfg: cfg(w, s, false), Sender: w.sender, Device: s.device, Suffix: ix[2] == 1, Noise: noises[ix[3]],
+				SenderRow: ix[4], GroupRow: ix[5], Denied: ix[6], Sub: ix[7], HasAllow: ix[8], Entry: ix[9], Group: "g1"})
 		}),
 	})
 	// ---- person
 	peers := []string{"u2", "rsys"}
-	// quick: devices {none, system device}, id forms {peer uid, reversed/normalize, reversed/as-is}; thorough: all 3 x 5
-	// (quick also fixes irrelevant_flags = set, the harder half; the group space keeps both)
-	nDev, forms, noises := 2, []int{0, 2, 4}, []bool{true}
+	// quick: id forms {peer uid, reversed/normalize, reversed/as-is}; thorough: all 5
+	forms := []int{0, 2, 4}
 	if thorough {
-		nDev, forms, noises = 3, []int{0, 1, 2, 3, 4}, []bool{false, true}
+		forms = []int{0, 1, 2, 3, 4}
 	}
 	out = append(out, &c36Space{
 		name:  "person",
-		names: []string{"system_uids_configured", "system_device_configured", "whitelist_enabled", "sender", "receiver", "device", "channel_form", "cmd_suffix", "irrelevant_flags", "sender_row", "channel_row", "denylisted", "allowlisted", "receiver_row"},
-		dims:  []int{2, 2, 2, 2, 2, nDev, len(forms), 2, len(noises), 4, 4, 3, 3, 4},
+		names: []string{"sender(system-uid config)", "session(system-device config)", "whitelist_enabled", "receiver", "channel_form", "cmd_suffix", "irrelevant_flags", "sender_row", "channel_row", "denylisted", "allowlisted", "receiver_row"},
+		dims:  []int{len(whos), len(sessions), 2, 2, len(forms), 2, len(noises), 4, 4, 3, 3, 4},
 		// the TTL-cache path is run for the person product in the thorough tier only (quick: group, malformed, other types)
 		eval: c36SingleEvalCache(thorough, func(ix []int) c36Case {
-			return c36PersonCase(c36PersonFacts{Cfg: c36CfgOf(ix[0], ix[1], ix[2]), Sender: c36Senders[ix[3]], Peer: peers[ix[4]], Device: c36Devices[ix[5]], Form: forms[ix[6]],
-				Suffix: ix[7] == 1, Noise: noises[ix[8]], SenderRow: ix[9], TermRow: ix[10], Denied: ix[11], Entry: ix[12], RecvRow: ix[13]})
+			w, s := whos[ix[0]], sessions[ix[1]]
+			return c36PersonCase(c36PersonFacts{Cfg: cfg(w, s, ix[2] == 1), Sender: w.sender, Peer: peers[ix[3]], Device: s.device, Form: forms[ix[4]],
+				Suffix: ix[5] == 1, Noise: noises[ix[6]], SenderRow: ix[7], TermRow: ix[8], Denied: ix[9], Entry: ix[10], RecvRow: ix[11]})
 		}),
 	})
 	// ---- malformed person channel ids
 	out = append(out, &c36Space{
 		name:  "person-malformed",
-		names: []string{"system_uids_configured", "system_device_configured", "sender", "device", "channel_id", "cmd_suffix", "sender_row", "channel_row"},
-		dims:  []int{2, 2, 2, 3, len(c36BadIDs), 2, 4, 4},
+		names: []string{"sender(system-uid config)", "session(system-device config)", "channel_id", "cmd_suffix", "sender_row", "channel_row"},
+		dims:  []int{len(whos), len(sessions), len(c36BadIDs), 2, 4, 4},
 		eval: c36SingleEval(func(ix []int) c36Case {
-			return c36MalformedCase(c36MalformedFacts{Cfg: c36CfgOf(ix[0], ix[1], 0), Sender: c36Senders[ix[2]], Device: c36Devices[ix[3]], IDIndex: ix[4], Suffix: ix[5] == 1,
-				SenderRow: ix[6], TermRow: ix[7]})
+			w, s := whos[ix[0]], sessions[ix[1]]
+			return c36MalformedCase(c36MalformedFacts{Cfg: cfg(w, s, false), Sender: w.sender, Device: s.device, IDIndex: ix[2], Suffix: ix[3] == 1,
+				SenderRow: ix[4], TermRow: ix[5]})
 		}),
 	})
 	// ---- the other channel types (both entry points use the per-send code for them)
@@ -259,28 +293,36 @@ func c36Spaces(thorough bool) []*c36Space {
 		typ := typ
 		out = append(out, &c36Space{
 			name:  "other/" + c36OtherTypeName(typ),
-			names: []string{"system_uids_configured", "system_device_configured", "sender", "device", "cmd_suffix", "sender_row", "channel_row"},
-			dims:  []int{2, 2, 2, 3, 2, 4, 4},
+			names: []string{"sender(system-uid config)", "session(system-device config)", "cmd_suffix", "sender_row", "channel_row"},
+			dims:  []int{len(whos), len(sessions), 2, 4, 4},
 			eval: c36SingleEval(func(ix []int) c36Case {
-				return c36OtherCase(c36OtherFacts{Cfg: c36CfgOf(ix[0], ix[1], 0), Type: typ, Sender: c36Senders[ix[2]], Device: c36Devices[ix[3]], Suffix: ix[4] == 1, SenderRow: ix[5], TermRow: ix[6]})
+				w, s := whos[ix[0]], sessions[ix[1]]
+				return c36OtherCase(c36OtherFacts{Cfg: cfg(w, s, false), Type: typ, Sender: w.sender, Device: s.device, Suffix: ix[2] == 1, SenderRow: ix[3], TermRow: ix[4]})
 			}),
 		})
 	}
 	out = append(out, &c36Space{
 		name:  "other/agent",
-		names: []string{"system_uids_configured", "system_device_configured", "sender", "device", "channel_id", "cmd_suffix", "sender_row", "channel_row"},
-		dims:  []int{2, 2, 2, 3, len(c36AgentIDs), 2, 4, 4},
+		names: []string{"sender(system-uid config)", "session(system-device config)", "channel_id", "cmd_suffix", "sender_row", "channel_row"},
+		dims:  []int{len(whos), len(sessions), len(c36AgentIDs), 2, 4, 4},
 		eval: c36SingleEval(func(ix []int) c36Case {
-			return c36OtherCase(c36OtherFacts{Cfg: c36CfgOf(ix[0], ix[1], 0), Type: c36TAgent, Sender: c36Senders[ix[2]], Device: c36Devices[ix[3]], Variant: ix[4], Suffix: ix[5] == 1, SenderRow: ix[6], TermRow: ix[7]})
+			w, s := whos[ix[0]], sessions[ix[1]]
+			return c36OtherCase(c36OtherFacts{Cfg: cfg(w, s, false), Type: c36TAgent, Sender: w.sender, Device: s.device, Variant: ix[2], Suffix: ix[3] == 1, SenderRow: ix[4], TermRow: ix[5]})
 		}),
 	})
+	// visitors reuse the group member-list code of the per-send path: list facts {false,true} in quick, + store error in thorough
+	vt := 2
+	if thorough {
+		vt = 3
+	}
 	out = append(out, &c36Space{
 		name:  "other/visitors",
-		names: []string{"system_uids_configured", "system_device_configured", "sender", "device", "own_channel_or_other", "cmd_suffix", "sender_row", "channel_row", "denylisted", "subscriber", "allowlist_nonempty", "allowlisted"},
-		dims:  []int{2, 2, 2, 3, 2, 2, 4, 4, 3, 3, 3, 3},
+		names: []string{"sender(system-uid config)", "session(system-device config)", "own_channel_or_other", "cmd_suffix", "sender_row", "channel_row", "denylisted", "subscriber", "allowlist_nonempty", "allowlisted"},
+		dims:  []int{len(whos), len(sessions), 2, 2, 4, 4, vt, vt, vt, vt},
 		eval: c36SingleEval(func(ix []int) c36Case {
-			return c36OtherCase(c36OtherFacts{Cfg: c36CfgOf(ix[0], ix[1], 0), Type: c36TVisitors, Sender: c36Senders[ix[2]], Device: c36Devices[ix[3]], Variant: ix[4], Suffix: ix[5] == 1,
-				SenderRow: ix[6], TermRow: ix[7], Denied: ix[8], Sub: ix[9], HasAllow: ix[10], Entry: ix[11]})
+			w, s := whos[ix[0]], sessions[ix[1]]
+			return c36OtherCase(c36OtherFacts{Cfg: cfg(w, s, false), Type: c36TVisitors, Sender: w.sender, Device: s.device, Variant: ix[2], Suffix: ix[3] == 1,
+				SenderRow: ix[4], TermRow: ix[5], Denied: ix[6], Sub: ix[7], HasAllow: ix[8], Entry: ix[9]})
 		}),
 	})
 	out = append(out, c36MixedSpaces(thorough)...)
@@ -349,15 +391,16 @@ func c36MixedEval(kind string, build func(ix []int) (c36Cfg, []c36Case)) func(ix
 func c36MixedSpaces(thorough bool) []*c36Space {
 	var out []*c36Space
 	// list facts {false,true} in quick, {false,true,store error} in thorough for the two large families
-	t := 2
+	// quick also drops the store-error entry of the per-item rows (sr, gr, tr) in the large families
+	t, sr, gr, tr := 2, 3, 5, 3
 	if thorough {
-		t = 3
+		t, sr, gr, tr = 3, 4, 6, 4
 	}
 	// (a) one sender, two groups: the sender row is read once for both items
 	out = append(out, &c36Space{
 		name:  "mixed/one-sender-two-groups",
 		names: []string{"sender_row", "g1.channel_row", "g1.denylisted", "g1.subscriber", "g1.allowlist_nonempty", "g1.allowlisted", "g2.channel_row", "g2.denylisted", "g2.subscriber", "g2.allowlist_nonempty", "g2.allowlisted"},
-		dims:  []int{4, 6, t, t, t, t, 6, t, t, t, t},
+		dims:  []int{4, gr, t, t, t, t, gr, t, t, t, t},
 		eval: c36MixedEval("one-sender-two-groups", func(ix []int) (c36Cfg, []c36Case) {
 			cfg := c36Cfg{}
 			a := c36GroupCase(c36GroupFacts{Cfg: cfg, Sender: "u1", SenderRow: ix[0], GroupRow: ix[1], Denied: ix[2], Sub: ix[3], HasAllow: ix[4], Entry: ix[5], Group: "g1"})
@@ -370,7 +413,7 @@ func c36MixedSpaces(thorough bool) []*c36Space {
 	out = append(out, &c36Space{
 		name:  "mixed/two-senders-one-group",
 		names: []string{"second_sender", "channel_row", "allowlist_nonempty", "u1.sender_row", "u1.denylisted", "u1.subscriber", "u1.allowlisted", "s2.sender_row", "s2.denylisted", "s2.subscriber", "s2.allowlisted"},
-		dims:  []int{2, 6, 3, 4, t, t, t, 4, t, t, t},
+		dims:  []int{2, 6, 3, sr, t, t, t, sr, t, t, t},
 		eval: c36MixedEval("two-senders-one-group", func(ix []int) (c36Cfg, []c36Case) {
 			cfg := c36Cfg{SysUIDs: true}
 			a := c36GroupCase(c36GroupFacts{Cfg: cfg, Sender: "u1", SenderRow: ix[3], GroupRow: ix[1], Denied: ix[4], Sub: ix[5], HasAllow: ix[2], Entry: ix[6], Group: "g1"})
@@ -394,7 +437,7 @@ func c36MixedSpaces(thorough bool) []*c36Space {
 	out = append(out, &c36Space{
 		name:  "mixed/group-and-person-one-sender",
 		names: []string{"whitelist_enabled", "sender_row", "g.channel_row", "g.denylisted", "g.subscriber", "g.allowlist_nonempty", "g.allowlisted", "p.channel_row", "p.denylisted", "p.allowlisted", "p.receiver_row"},
-		dims:  []int{2, 4, 6, 2, 2, 2, 2, 4, 2, 2, 4},
+		dims:  []int{2, 4, gr, 2, 2, 2, 2, tr, 2, 2, 4},
 		eval: c36MixedEval("group-and-person-one-sender", func(ix []int) (c36Cfg, []c36Case) {
 			cfg := c36Cfg{Whitelist: ix[0] == 1}
 			a := c36GroupCase(c36GroupFacts{Cfg: cfg, Sender: "u1", SenderRow: ix[1], GroupRow: ix[2], Denied: ix[3], Sub: ix[4], HasAllow: ix[5], Entry: ix[6], Group: "g1"})
@@ -406,7 +449,7 @@ func c36MixedSpaces(thorough bool) []*c36Space {
 	out = append(out, &c36Space{
 		name:  "mixed/two-senders-one-receiver",
 		names: []string{"whitelist_enabled", "receiver_row", "u1.sender_row", "u1.channel_row", "u1.denylisted", "u1.allowlisted", "u3.sender_row", "u3.channel_row", "u3.denylisted", "u3.allowlisted"},
-		dims:  []int{2, 4, 4, 4, 2, 2, 4, 4, 2, 2},
+		dims:  []int{2, 4, sr, tr, 2, 2, sr, tr, 2, 2},
 		eval: c36MixedEval("two-senders-one-receiver", func(ix []int) (c36Cfg, []c36Case) {
 			cfg := c36Cfg{Whitelist: ix[0] == 1}
 			a := c36PersonCase(c36PersonFacts{Cfg: cfg, Sender: "u1", Peer: "u2", Form: 0, SenderRow: ix[2], TermRow: ix[3], Denied: ix[4], Entry: ix[5], RecvRow: ix[1]})
@@ -417,7 +460,7 @@ func c36MixedSpaces(thorough bool) []*c36Space {
 	out = append(out, &c36Space{
 		name:  "mixed/one-person-channel-two-id-forms",
 		names: []string{"whitelist_enabled", "first_form", "second_form", "second_cmd_suffix", "sender_row", "channel_row", "denylisted", "allowlisted", "receiver_row"},
-		dims:  []int{2, 4, 4, 2, 4, 4, 3, 3, 4},
+		dims:  []int{2, 4, 4, 2, 4, 4, t, t, 4},
 		eval: c36MixedEval("one-person-channel-two-id-forms", func(ix []int) (c36Cfg, []c36Case) {
 			cfg := c36Cfg{Whitelist: ix[0] == 1}
 			a := c36PersonCase(c36PersonFacts{Cfg: cfg, Sender: "u1", Peer: "u2", Form: ix[1], SenderRow: ix[4], TermRow: ix[5], Denied: ix[6], Entry: ix[7], RecvRow: ix[8]})
